@@ -1,4 +1,4 @@
-CONSTANTS Writers = {w1, w2}  Faults = 3  FixF3 = TRUE FixF6 = TRUE FixF7 = TRUE FixF8 = TRUE FixF9 = TRUE LargeBatch = FALSE WithClose = TRUE Sticky = FALSE KComp = 1
+CONSTANTS Writers = {w1, w2}  Faults = 3  FixF3 = TRUE FixF6 = TRUE FixF7 = TRUE FixF8 = TRUE FixF9 = TRUE FixF30 = TRUE LargeBatch = FALSE WithClose = TRUE Sticky = FALSE KComp = 1 WithSetRO = FALSE
 SPECIFICATION Spec
 INVARIANTS NoStuck NoLeak
 PROPERTY Live
